@@ -793,7 +793,55 @@ def rule_k(ctx, out):
         raise AnalysisError(f"unify_keccak_instructions merged only {merged} of {n} pairs of hashes")
 
 
+def rule_l(ctx, out):
+    """The dependences are published under instruction ids: compute_identifiers_storage_instructions turns the positions of the access
+    order into ids by counting, and the store instructions themselves are numbered per kind (MSTORE_k, MSTORE8_k, SSTORE_k) in order of
+    appearance.  Interpreted on store sequences that mix word and byte stores: the k-th word store must be called MSTORE_k and the k-th
+    byte store MSTORE8_k — a byte store numbered with the other counter attaches its ordering pairs to a different instruction."""
+    import itertools as it
+    f = ctx.func(f"{GO}.compute_identifiers_storage_instructions")
+    mi = ModuleInterp(ctx, max_steps=100000)
+    env = mi.module_env(GO)
+    n = 0
+    seen = set()
+    for loc, kinds in (("memory", ("mstore", "mstore8")), ("storage", ("sstore",))):
+        for k in (1, 2, 3, 4):
+            for combo in it.product(kinds, repeat=k):
+                seq = [((f"a{i}", f"v{i}", kind), 2) for i, kind in enumerate(combo)]
+                env.update(u_dict={}, debug=False)
+                try:
+                    got = mi.call(f, list(seq), loc, [])
+                except Raised as e:
+                    key = f"access-ids:raises:{e.what.split(' ')[0]}"
+                    if key not in seen:
+                        seen.add(key)
+                        out.bad(key, f"compute_identifiers_storage_instructions raises {e.what} on the stores {list(combo)}", where(f))
+                    continue
+                except Unsupported as e:
+                    raise AnalysisError(f"compute_identifiers_storage_instructions cannot be interpreted on {list(combo)}: {e}")
+                n += 1
+                cnt = {}
+                want = []
+                for kind in combo:
+                    want.append(f"{kind.upper()}_{cnt.get(kind, 0)}")
+                    cnt[kind] = cnt.get(kind, 0) + 1
+                if list(got) == want:
+                    out.ok()
+                else:
+                    bad = next(i for i, (g_, w_) in enumerate(zip(list(got) + [None] * len(want), want)) if g_ != w_)
+                    key = f"access-ids:{combo[bad]}-numbered-wrongly"
+                    if key in seen:
+                        out.instances += 1
+                        continue
+                    seen.add(key)
+                    out.bad(key, f"for the stores {list(combo)} the access order is published under the ids {list(got)}; the instructions are called {want}: "
+                            f"the ordering pairs of a {combo[bad]} name another instruction", where(f))
+    if n < 30:
+        raise AnalysisError(f"only {n} store sequences evaluated")
+
+
 RULES = [
+    ("C02.l", "access positions are published under the ids the store instructions carry", 30, rule_l),
     ("C02.k", "merging two hashes needs the same offset, the same length and no possibly-overlapping write between them", 6, rule_k),
     ("C02.j", "merging two loads of one address needs no possibly-overlapping write between them (byte stores included)", 10, rule_j),
     ("C02.i", "exactly the dead loads leave the access order", 150, rule_i),
